@@ -2,7 +2,7 @@
    history/reference-map definitions in Proofs/C07Ref.v, the cache model in
    Model/Cache.v. *)
 From Coq Require Import List ZArith Bool.
-From Cedar Require Import Lib.Bytes Model.Cache Proofs.C07Ref Proofs.C07.
+From Cedar Require Import Lib.Bytes Model.Cache Proofs.C07Ref Proofs.C07 Proofs.C07Est.
 Import ListNotations.
 Local Open Scope Z_scope.
 
@@ -45,6 +45,20 @@ Theorem C07_refines : forall h,
        /\ is_expired (fst x) now = false).
 Proof. exact refines_full. Qed.
 Print Assumptions C07_refines.
+
+(* ... and every session the reference map holds (hence every session C07_refines
+   lets a handshake ride) was established by a full handshake of this very history:
+   its id is the one that handshake's server announced, its tag and address are
+   that handshake's, its commands are the ValidCommands that server declared
+   (lease renewals change none of this).  No hypothesis. *)
+Theorem C07_established : forall h x,
+  In x (r_sessions (fst (ref_run h))) ->
+  exists t a cmd p fo,
+    In (EHandshake t a cmd p) h /\ on_full p = FOk fo /\
+    e_id (fst x) = f_sid fo /\ e_tag (fst x) = t /\ e_addr (fst x) = a /\
+    snd x = cmds_of (f_valid fo).
+Proof. exact established. Qed.
+Print Assumptions C07_established.
 
 (* Drop-on-failure, for ANY cache state representing a map: when the server
    answers SID_NOT_FOUND or the exchange breaks, the handshake (which was a
